@@ -165,6 +165,10 @@ class ModelImageMixin:
         else:
             residual = self.make_model_image(data.shape, psf_shape=psf_shape,
                                              include_localbkg=include_localbkg)
+            # the model image is unitless if no source overlaps the image
+            if (isinstance(data, u.Quantity)
+                    and not isinstance(residual, u.Quantity)):
+                residual <<= data.unit
             np.subtract(data, residual, out=residual)
 
         return residual
